@@ -487,9 +487,9 @@ impl NetworkRef {
     }
 }
 
-#[cfg(feature = "verif-hooks")]
+#[cfg(feature = "verif-hooks-cm")]
 pub(crate) use connection_manager::verif_hooks as connection_manager_hooks;
-#[cfg(feature = "verif-hooks")]
+#[cfg(feature = "verif-hooks-conn")]
 pub(crate) use peer::verif_hooks as peer_hooks;
-#[cfg(feature = "verif-hooks")]
+#[cfg(feature = "verif-hooks-wire")]
 pub(crate) use wire::verif_hooks as wire_hooks;
